@@ -553,34 +553,35 @@ lyjson_exp_number(const struct ly_ctx *ctx, const char *in, const char *exponent
         i += zeros;
         dp_position = -1;
         lyjson_exp_number_copy_num_part(num, num_len, dec_point, dp_position, buf + i);
-    } else if (leading_zero && (dp_position < (ssize_t)num_len)) {
-        /* Insert decimal point between the integer's digits. */
+    } else if (leading_zero && (dp_position < (ssize_t)num_len - 1)) {
+        /* Insert decimal point between the fraction digits. */
 
         /* Set a new range of 'numeric part'. Old decimal point is skipped. */
         num++;
         num_len--;
-        dp_position--;
         /* Get the number of useless zeros between the old
          * and new decimal point. For example, in the number 0.005E1,
          * there is one useless zero.
          */
-        zeros = lyjson_count_in_row(num, num + dp_position + 1, '0', FORWARD);
+        zeros = lyjson_count_in_row(num, num + dp_position, '0', FORWARD);
         /* If the new decimal point will be in the place of the first non-zero subnumber. */
-        if (zeros == (dp_position + 1)) {
+        if (zeros == dp_position) {
             /* keep one zero as leading zero */
             zeros--;
             /* new decimal point will be behind the leading zero */
             dp_position = 1;
-            dot = 1;
         } else {
-            dot = 0;
+            /* the skipped zeros were in front of the new decimal point */
+            dp_position -= zeros;
         }
+        /* the new decimal point always takes a byte */
+        dot = 1;
         buf_len = minus + dot + (num_len - zeros);
         LY_CHECK_RET(lyjson_get_buffer_for_number(ctx, buf_len, &buf));
         MAYBE_WRITE_MINUS(buf, i, minus);
         /* Skip useless zeros and copy. */
         lyjson_exp_number_copy_num_part(num + zeros, num_len - zeros, NULL, dp_position, buf + i);
-    } else if (dp_position < (ssize_t)num_len) {
+    } else if (!leading_zero && (dp_position < (ssize_t)num_len)) {
         /* Insert decimal point between the integer's digits. */
 
         buf_len = minus + dot + num_len;
